@@ -163,6 +163,27 @@ class Glyph(BaseObject):
         self._lib = None
         self._image = None
 
+    # -----------
+    # Dirty State
+    # -----------
+
+    def _set_dirty(self, value):
+        if not value:
+            # a glyph that is not dirty (it has just been read or written)
+            # holds nothing that needs saving
+            for contour in self._contours or []:
+                contour._dirty = False
+            for objects in (self._components, self._anchors, self._guidelines):
+                for obj in objects or []:
+                    obj._dirty = False
+            if self._lib is not None:
+                self._lib._dirty = False
+            if self._image is not None:
+                self._image._dirty = False
+        super(Glyph, self)._set_dirty(value)
+
+    dirty = property(BaseObject._get_dirty, _set_dirty, doc=BaseObject.dirty.__doc__)
+
     # --------------
     # Parent Objects
     # --------------
